@@ -28,7 +28,8 @@ PROP = {
                   "before and after the candidate repair.",
     "level_note": "On the pinned tree the property is violated (known findings: the stored root is never compared; the transaction hash does not bind "
                   "the location of the spent outputs). ./check passes with KNOWN-FINDING lines.",
-    "lean_modules": ["Saito.Props.C06"],
+    "lean_modules": ["Saito.Props.C06", "Saito.Props.C06Gen"],
+    "uses_gen": True,
     "suites": ["txv"],
     "relevant": lambda op, a, b: _is_c06(op),
     "nontrivial": lambda op, a: _is_c06(op) and "/none/" not in _label(op),
